@@ -75,6 +75,8 @@ type Solver struct {
 	axioms        []*Term
 	LogQueries    bool
 	LastScript    string
+	NoTactic      bool
+	pureMemo      map[int]bool
 }
 
 func NewSolver(ctx *Ctx, bin string) (*Solver, error) {
@@ -114,6 +116,10 @@ func (s *Solver) start() error {
 		fmt.Fprintln(s.in, "(set-logic ALL)")
 	}
 	fmt.Fprintln(s.in, "(set-option :produce-models true)")
+	if !s.cvc5 {
+		// fall back to the tactic-based solver when the incremental core is slow
+		fmt.Fprintln(s.in, "(set-option :combined_solver.solver2_timeout 100)")
+	}
 	// re-assert axioms after restart
 	s.pendingAxioms = append(append([]*Term{}, s.axioms...), s.pendingAxioms...)
 	s.axioms = nil
@@ -259,7 +265,29 @@ func (s *Solver) Check(assertions []*Term, timeoutMs int, values []*Term) (Resul
 	if !s.cvc5 {
 		fmt.Fprintf(&sb, "(set-option :timeout %d)\n", timeoutMs)
 	}
-	sb.WriteString("(check-sat)\n")
+	// pure Bool/BitVec queries go straight to bit-blasting: z3's incremental core is an order
+	// of magnitude slower on wide sums of ite terms (measured); on unknown the query is repeated
+	// with the default strategy below
+	pure := !s.cvc5 && !s.NoTactic
+	if pure {
+		for _, a := range assertions {
+			if !s.pureBV(a) {
+				pure = false
+				break
+			}
+		}
+		for _, a := range s.axioms {
+			if !s.pureBV(a) {
+				pure = false
+				break
+			}
+		}
+	}
+	if pure {
+		sb.WriteString("(check-sat-using (then simplify bit-blast sat))\n")
+	} else {
+		sb.WriteString("(check-sat)\n")
+	}
 	fmt.Fprintf(&sb, "(echo \"%s1\")\n", endMark)
 	t0 := time.Now()
 	if _, err := io.WriteString(s.in, sb.String()); err != nil {
@@ -297,6 +325,20 @@ func (s *Solver) Check(assertions []*Term, timeoutMs int, values []*Term) (Resul
 	if hasErr {
 		s.St.Errors++
 		res = Unknown
+	}
+	if pure && res == Unknown && !hasErr {
+		// retry with the default strategy
+		fmt.Fprintf(s.in, "(check-sat)\n(echo \"%s3\")\n", endMark)
+		if l3, ok := s.readUntil(endMark + "3"); ok {
+			for _, l := range l3 {
+				switch strings.TrimSpace(l) {
+				case "sat":
+					res = Sat
+				case "unsat":
+					res = Unsat
+				}
+			}
+		}
 	}
 	var vals []Val
 	if res == Sat && len(values) > 0 {
@@ -340,6 +382,31 @@ func (s *Solver) Check(assertions []*Term, timeoutMs int, values []*Term) (Resul
 		s.St.Unknown++
 	}
 	return res, vals
+}
+
+// pureBV reports whether t contains only Bool and BitVec operations.
+func (s *Solver) pureBV(t *Term) bool {
+	if s.pureMemo == nil {
+		s.pureMemo = map[int]bool{}
+	}
+	if v, ok := s.pureMemo[t.ID]; ok {
+		return v
+	}
+	ok := t.Sort.K == KBool || t.Sort.K == KBV
+	switch t.Op {
+	case OApp, OBv2Nat, OInt2Bv, OToReal, OToInt:
+		ok = false
+	}
+	if ok {
+		for _, a := range t.Args {
+			if !s.pureBV(a) {
+				ok = false
+				break
+			}
+		}
+	}
+	s.pureMemo[t.ID] = ok
+	return ok
 }
 
 func (s *Solver) readUntil(mark string) ([]string, bool) {
